@@ -554,7 +554,7 @@ def corpus_cases(pid):
 DISPATCH_OPS = {"add_cluster", "remove_cluster", "set_hc", "remove_hc", "add_listener", "remove_listener", "activate",
                 "deactivate", "update_listener", "add_front", "remove_front", "add_tfront", "remove_tfront",
                 "add_backend", "remove_backend", "add_cert", "remove_cert", "replace_cert", "noop", "undisp", "empty"}
-SHRINK_KEEP = ("oracle_cert", "oracle_hc", "save", "load", "diff", "replay", "dump")
+SHRINK_KEEP = ("oracle_cert", "oracle_hc", "save", "load", "diff", "replay", "dump", "framing")
 
 COMMON_ASSUMPTIONS = [
     "third-party behaviour is a parameter of the model and universally quantified in the theorems: PEM/X.509 parsing and SHA-256 (fingerprint, intrinsic names), validate_health_check_config, the string grammars of validate_sozu_id_header / validate_alpn_protocols (verdict passed as data, computed by the real validators at run time)",
